@@ -17,13 +17,13 @@ ORD = "std::cmp::Ordering"
 def minpos_order_tables(F, rep, rule="C07.1"):
     names = [f["name"] for f in F.adts.get(MINPOS, {"variants": [{"fields": []}]})["variants"][0]["fields"]]
     if not {"val", "pos", "kmer"} <= set(names):
-        rep.violated(rule, "MinPos/fields", "anchor-missing: MinPos fields are %s" % names, witness={"kind": "anchor-missing"})
+        rep.inconclusive(rule, "MinPos/fields", "role discovery: the (private) MinPos record has fields %s; the order tables need (val, pos, kmer)" % names)
         return
     results = {}
     for path, nm in (("<msp::MinPos<P> as std::cmp::Ord>::cmp", "cmp"), ("<msp::MinPos<P> as std::cmp::PartialOrd>::partial_cmp", "partial_cmp")):
         body = F.fns.get(path)
         if body is None:
-            rep.violated(rule, "MinPos::" + nm, "anchor-missing: %s" % path, witness={"kind": "anchor-missing"})
+            rep.inconclusive(rule, "MinPos::" + nm, "role discovery: no %s on the (private) MinPos record" % path)
             continue
         problems = []
         inc = []
@@ -809,6 +809,12 @@ def slice_bounds_tables(F, rep, rule="C08.3"):
                 if nm == "len" and args and "src" in tags_of(recv(it, args[0])):
                     return atom_int(64, "n")
                 if nm == "get" and args and "src" in tags_of(recv(it, args[0])):
+                    if "slice::<impl [" in fn.get("path", ""):
+                        # <[u8]>::get: Some(&base) iff the index is below the read length
+                        lt = it.binop("Lt", args[1], atom_int(64, "n"), "bool")
+                        if not (isinstance(lt, Int) and lt.is_conc()):
+                            raise Undecided("slice::get bound")
+                        return some(Ref(Cell(self.base(args[1]), "src-elt"))) if lt.val else none()
                     return self.base(args[1])
                 return NotImplemented
 
